@@ -14,239 +14,10 @@
 From Coq Require Import List ZArith Arith Lia Bool.
 From Coq Require Import ZifyBool ZifyNat.
 From GL Require Import lib.GoLite model.RingBuf spec.Queue proofs.C14_RingBuf.
-From GLGEN Require Import Gen_ringbuffer.
+From GLGEN Require Import RB_GenVocab Gen_ringbuffer C14_GenFn_fill C14_GenFn_core.
 Import ListNotations.
 Open Scope Z_scope.
 Ltac Zify.zify_post_hook ::= Z.div_mod_to_equations.
-
-(** * container.SliceFill *)
-
-Lemma firstn_repeat {A} (x : A) n m : firstn n (repeat x m) = repeat x (Nat.min n m).
-Proof.
-  revert m. induction n as [|n IH]; intros m; [reflexivity|].
-  destruct m as [|m]; [reflexivity|]. cbn [repeat firstn Nat.min]. f_equal. apply IH.
-Qed.
-
-Lemma zlen_repeat (x : Z) n : zlen (repeat x n) = Z.of_nat n.
-Proof. unfold zlen. rewrite repeat_length. reflexivity. Qed.
-
-(* for i := range s { s[i] = v } *)
-Lemma gen_SliceFill_loop1 : forall f s v h0 i,
-  wf_slice h0 s -> 0 <= i <= s_len s -> (Z.to_nat (s_len s - i) < f)%nat ->
-  iter f (Gen.SliceFill_loop1 s v s) i (sl_put h0 s 0 (repeat v (Z.to_nat i))) =
-  Ok (s_len s, sl_put h0 s 0 (repeat v (Z.to_nat (s_len s)))).
-Proof.
-  induction f as [|f IH]; intros s v h0 i W Hi Hf; [lia|].
-  pose proof W as (Wa & Wo & Wl & Wc & Wm).
-  rewrite iter_S. unfold Gen.SliceFill_loop1 at 1. go_run.
-  - go_join W.
-    replace (repeat v (Z.to_nat i) ++ [v]) with (repeat v (Z.to_nat (i + 1)))
-      by (replace (Z.to_nat (i + 1)) with (Z.to_nat i + 1)%nat by lia; rewrite repeat_app; reflexivity).
-    apply IH; [exact W|lia|lia].
-  - unfold ret. replace i with (s_len s) by lia. reflexivity.
-Qed.
-
-(* for j := 1; j < len(s); j *= 2 { copy(s[j:], s[:j]) } *)
-Lemma gen_SliceFill_loop2 : forall f s v h0 j,
-  wf_slice h0 s -> 2 * s_len s < 9223372036854775808 -> 1 <= j ->
-  (Z.to_nat (s_len s - j) < f)%nat ->
-  exists j',
-  iter f (Gen.SliceFill_loop2 s) j (sl_put h0 s 0 (repeat v (Z.to_nat (Z.min j (s_len s))))) =
-  Ok (j', sl_put h0 s 0 (repeat v (Z.to_nat (s_len s)))).
-Proof.
-  induction f as [|f IH]; intros s v h0 j W Hs Hj Hf; [lia|].
-  pose proof W as (Wa & Wo & Wl & Wc & Wm).
-  rewrite iter_S. unfold Gen.SliceFill_loop2 at 1.
-  set (h := sl_put h0 s 0 (repeat v (Z.to_nat (Z.min j (s_len s))))).
-  assert (Wh : wf_slice h s)
-    by (apply wf_slice_put; [exact W|lia|rewrite zlen_repeat; lia|exact W]).
-  go_run.
-  - (* one doubling step *)
-    go_rebase s.
-    match goal with |- context [sl_get h ?p] =>
-      assert (G : sl_get h p = repeat v (Z.to_nat j))
-    end.
-    { rewrite (sl_get_reslice_len h s 0 j Wh) by lia. unfold h.
-      rewrite sl_get_put_same by (try exact W; rewrite ?zlen_repeat; lia).
-      unfold zsplice, zsub. cbn [Z.to_nat firstn skipn app Nat.add].
-      rewrite Z.min_l by lia. rewrite Z.sub_0_r, firstn_app, firstn_repeat, repeat_length.
-      replace (Nat.min (Z.to_nat j) (Z.to_nat j)) with (Z.to_nat j) by lia.
-      rewrite Nat.sub_diag. cbn [firstn]. apply app_nil_r. }
-    rewrite G, firstn_repeat. unfold h. rewrite Z.min_l by lia.
-    go_join W.
-    rewrite <- repeat_app.
-    match goal with |- context [repeat v ?n] =>
-      replace n with (Z.to_nat (Z.min (j * 2) (s_len s))) by lia
-    end.
-    apply IH; [exact W|exact Hs|lia|lia].
-  - unfold ret, h. rewrite Z.min_r by lia. eexists. reflexivity.
-Qed.
-
-Theorem gen_SliceFill_spec : forall h s v,
-  wf_slice h s -> 2 * s_len s < 9223372036854775808 ->
-  Gen.SliceFill s v h = Ok (tt, sl_put h s 0 (repeat v (Z.to_nat (s_len s)))).
-Proof.
-  intros h s v W Hs. pose proof W as (Wa & Wo & Wl & Wc & Wm).
-  unfold Gen.SliceFill. go_run.
-  - (* short: element by element *)
-    match goal with |- context [iter ?f _ _] =>
-      pose proof (gen_SliceFill_loop1 f s v h 0 W ltac:(lia) ltac:(lia)) as L
-    end.
-    cbn [Z.to_nat repeat] in L. rewrite sl_put_nil in L by exact W.
-    go_call L. reflexivity.
-  - (* long: s[0] = v, then doubling copies *)
-    assert (X1 : 1 <= 1) by lia.
-    match goal with |- context [iter ?f _ _] =>
-      assert (X2 : (Z.to_nat (s_len s - 1) < f)%nat) by lia;
-      destruct (gen_SliceFill_loop2 f s v h 1 W Hs X1 X2) as (j' & L)
-    end.
-    rewrite Z.min_l in L by lia. change (Z.to_nat 1) with 1%nat in L. cbn [repeat] in L.
-    go_call L. reflexivity.
-Qed.
-Print Assumptions gen_SliceFill_spec.
-
-(** * The model's list operations as splices *)
-
-Lemma set_nth_zsplice : forall l i v, (i < length l)%nat ->
-  set_nth l i v = zsplice l (Z.of_nat i) [v].
-Proof.
-  induction l as [|x t IH]; intros i v Hi; cbn [length] in Hi; [lia|].
-  unfold zsplice. rewrite Nat2Z.id. destruct i as [|i].
-  - reflexivity.
-  - cbn [set_nth firstn app length Nat.add skipn]. f_equal. rewrite IH by lia.
-    unfold zsplice. rewrite Nat2Z.id. cbn [length]. reflexivity.
-Qed.
-
-Lemma zero_range_zsplice : forall cnt l from, (from + cnt <= length l)%nat ->
-  zero_range l from cnt = zsplice l (Z.of_nat from) (repeat 0 cnt).
-Proof.
-  induction cnt as [|c IH]; intros l from H.
-  - cbn [zero_range repeat]. rewrite zsplice_nil. reflexivity.
-  - cbn [zero_range repeat]. rewrite IH by (rewrite set_nth_length; lia).
-    rewrite set_nth_zsplice by lia.
-    replace (Z.of_nat (S from)) with (Z.of_nat from + zlen [0]) by (unfold zlen; cbn [length]; lia).
-    rewrite zsplice_zsplice_adj by (unfold zlen; cbn [length]; lia). reflexivity.
-Qed.
-
-Lemma slice_zsub l from cnt : slice l from cnt = zsub l (Z.of_nat from) (Z.of_nat cnt).
-Proof. unfold slice, zsub. rewrite !Nat2Z.id. reflexivity. Qed.
-
-(** * Representation relation *)
-
-Record rel (h : heap) (g : Gen.ringBuffer) (b : rb) : Prop := mkRel {
-  rel_wf : wf_slice h (Gen.ringBuffer_buf g);
-  rel_buf : sl_get h (Gen.ringBuffer_buf g) = buf b;
-  rel_r : Gen.ringBuffer_r g = Z.of_nat (rd b);
-  rel_w : Gen.ringBuffer_w g = Z.of_nat (wr b);
-  rel_rd : (rd b < blen b)%nat;        (* part of the model's invariant Inv *)
-  rel_wr : (wr b < blen b)%nat;
-  rel_small : 2 * s_len (Gen.ringBuffer_buf g) < 9223372036854775808 }.
-
-Lemma rel_len h g b : rel h g b -> s_len (Gen.ringBuffer_buf g) = Z.of_nat (blen b).
-Proof.
-  intros R. pose proof (sl_get_len h _ (rel_wf _ _ _ R)) as L.
-  rewrite (rel_buf _ _ _ R) in L. unfold zlen, blen in *. lia.
-Qed.
-
-(* destructure a rel hypothesis into arithmetic facts *)
-Ltac rel_facts R :=
-  pose proof (rel_len _ _ _ R) as L;
-  pose proof (rel_r _ _ _ R) as Hr; pose proof (rel_w _ _ _ R) as Hw;
-  pose proof (rel_rd _ _ _ R) as Hrd; pose proof (rel_wr _ _ _ R) as Hwr;
-  pose proof (rel_small _ _ _ R) as Hsm; pose proof (rel_buf _ _ _ R) as Hbuf;
-  pose proof (rel_wf _ _ _ R) as W; pose proof W as (Wa & Wo & Wl & Wc & Wm).
-
-(** * Len, Cap *)
-
-Theorem gen_Len_refines : forall h g b, rel h g b ->
-  Gen.ringBuffer_Len g = Z.of_nat (rb_len b).
-Proof.
-  intros h g b R. rel_facts R. unfold Gen.ringBuffer_Len, rb_len.
-  repeat (go_if; try lia); go_unwrap; lia.
-Qed.
-
-Theorem gen_Cap_refines : forall h g b, rel h g b ->
-  Gen.ringBuffer_Cap g = Z.of_nat (rb_cap b).
-Proof.
-  intros h g b R. rel_facts R. unfold Gen.ringBuffer_Cap, rb_cap. go_unwrap. lia.
-Qed.
-
-(** * Write, Read, At *)
-
-Ltac rel_cbn := cbn [Gen.ringBuffer_buf Gen.ringBuffer_r Gen.ringBuffer_w Gen.ringBuffer_size
-  Gen.set_ringBuffer_r Gen.set_ringBuffer_w buf rd wr] in *.
-Ltac rel_split := rel_cbn; constructor; rel_cbn.
-
-Theorem gen_Write_refines : forall h g b v, rel h g b ->
-  exists g' h',
-    Gen.ringBuffer_Write g v h = Ok ((g', if snd (rb_write b v) then ENil else Err), h') /\
-    rel h' g' (fst (rb_write b v)) /\ length h' = length h.
-Proof.
-  intros h g b v R. rel_facts R.
-  unfold Gen.ringBuffer_Write, rb_write.
-  rewrite (gen_Len_refines h g b R), (gen_Cap_refines h g b R).
-  destruct (rb_len b =? rb_cap b)%nat eqn:E; cbn [fst snd];
-  go_run; unfold ret; do 2 eexists; (split; [reflexivity|]).
-  all: try (split; [exact R|reflexivity]).
-  all: split; [|apply sl_put_length; assumption].
-  all: unfold wrap; rel_split; unfold blen; cbn [buf]; rewrite ?set_nth_length;
-    try (apply wf_slice_put; [assumption|lia|unfold zlen; cbn [length]; lia|assumption]);
-    try (rewrite sl_get_put_same by (try assumption; unfold zlen; cbn [length]; lia);
-         rewrite (rel_buf _ _ _ R); symmetry; rewrite set_nth_zsplice by (unfold blen in *; lia);
-         f_equal; lia);
-    try assumption; unfold blen in *; repeat (go_if; try lia); try lia.
-Qed.
-
-Theorem gen_Read_refines : forall h g b, rel h g b ->
-  exists g' h',
-    Gen.ringBuffer_Read g h =
-      Ok ((g', match snd (rb_read b) with Some v => v | None => 0 end,
-               match snd (rb_read b) with Some _ => ENil | None => Err end), h') /\
-    rel h' g' (fst (rb_read b)) /\ length h' = length h.
-Proof.
-  intros h g b R. rel_facts R.
-  unfold Gen.ringBuffer_Read, rb_read.
-  rewrite (gen_Len_refines h g b R).
-  destruct (rb_len b =? 0)%nat eqn:E; cbn [fst snd];
-  go_run; unfold ret, znth; rewrite ?Hbuf, ?Hr, ?Nat2Z.id; do 2 eexists; (split; [reflexivity|]).
-  all: try (split; [exact R|reflexivity]).
-  all: split; [|apply sl_put_length; assumption].
-  all: unfold wrap; rel_split; unfold blen; cbn [buf]; rewrite ?set_nth_length;
-    try (apply wf_slice_put; [assumption|lia|unfold zlen; cbn [length]; lia|assumption]);
-    try (rewrite sl_get_put_same by (try assumption; unfold zlen; cbn [length]; lia);
-         rewrite Hbuf; symmetry; rewrite set_nth_zsplice by (unfold blen in *; lia);
-         f_equal; lia);
-    try assumption; unfold blen in *; repeat (go_if; try lia); try lia.
-Qed.
-
-Theorem gen_At_refines : forall h g b i, rel h g b ->
-  -9223372036854775808 <= i < 9223372036854775808 ->
-  Gen.ringBuffer_At g i h = match rb_at b i with Some v => Ok (v, h) | None => GoPanic end.
-Proof.
-  intros h g b i R Hi. rel_facts R.
-  assert (Hl : (rb_len b <= blen b)%nat) by (unfold rb_len; repeat (go_if; try lia); lia).
-  unfold Gen.ringBuffer_At, rb_at.
-  rewrite (gen_Len_refines h g b R).
-  go_run; try reflexivity; unfold ret, znth; rewrite Hbuf; repeat f_equal; unfold blen in *; lia.
-Qed.
-
-(** * ReadN *)
-
-Lemma zsub_firstn l lo n m : (m <= Z.to_nat n)%nat ->
-  firstn m (zsub l lo n) = zsub l lo (Z.of_nat m).
-Proof.
-  intros H. unfold zsub. rewrite firstn_firstn, Nat2Z.id.
-  replace (Nat.min m (Z.to_nat n)) with m by lia. reflexivity.
-Qed.
-
-Lemma rb_len_le b : (rd b < blen b)%nat -> (wr b < blen b)%nat -> (rb_len b <= blen b)%nat.
-Proof. intros. unfold rb_len. repeat (go_if; try lia); lia. Qed.
-
-(* the segment one iteration of ReadN/Skip works on *)
-Definition rn_end (b : rb) : nat := if (rd b <? wr b)%nat then wr b else blen b.
-Definition rn_cnt (b : rb) (k : nat) : nat := Nat.min k (rn_end b - rd b).
-Definition rn_next (b : rb) (cnt : nat) : rb :=
-  mkRb (zero_range (buf b) (rd b) cnt) (wrap b (rd b + cnt)) (wr b).
 
 Lemma gen_ReadN_done : forall h g b dst res, rel h g b -> 0 <= s_len dst ->
   ((0 <? Z.to_nat (s_len dst)) && (0 <? rb_len b))%nat = false ->
@@ -257,6 +28,7 @@ Proof.
 Qed.
 
 (* after zeroing [cnt] slots from rd and advancing, the states are related again *)
+
 Lemma rel_advance : forall h g b cnt h' rv,
   rel h g b -> (rd b + cnt <= blen b)%nat ->
   wf_slice h' (Gen.ringBuffer_buf g) ->
@@ -344,16 +116,9 @@ Proof.
   repeat (go_if; try lia); lia.
 Qed.
 
-Lemma wf_sub h s0 s o : wf_slice h s0 -> 0 <= o <= s_len s0 ->
-  s_arr s = s_arr s0 -> s_off s = s_off s0 + o -> s_len s = s_len s0 - o -> s_cap s = s_cap s0 - o ->
-  wf_slice h s.
-Proof.
-  intros (Wa & Wo & Wl & Wc & Wm) Ho Ea Eo El Ec. unfold wf_slice. rewrite Ea, Eo, El, Ec.
-  repeat split; lia.
-Qed.
-
 (* the loop of ReadN: [dst] is what is left of the caller's slice [dst0] after
    [res] elements were delivered *)
+
 Lemma gen_ReadN_loop : forall mf h g b dst0 dst res acc b' vals f,
   rel h g b -> wf_slice h dst0 -> s_arr dst0 <> s_arr (Gen.ringBuffer_buf g) ->
   0 <= res <= s_len dst0 ->
@@ -449,15 +214,8 @@ Proof.
   split; [exact Hm|]. go_call E. cbv beta iota zeta. unfold ret. rewrite Z.add_0_l in *.
   split; [reflexivity|]. split; [exact R'|]. split; [exact G|]. split; [exact Hb|]. split; assumption.
 Qed.
+
 Print Assumptions gen_ReadN_refines.
-
-(** * Skip, Clear *)
-
-Definition sk_n1 (b : rb) (n : Z) : nat :=
-  if (Z.of_nat (rb_len b) <? n) then rb_len b else Z.to_nat n.
-Definition sk_end (b : rb) (n : Z) : nat :=
-  if (blen b <=? rd b + sk_n1 b n)%nat then blen b else (rd b + sk_n1 b n)%nat.
-Definition sk_cnt (b : rb) (n : Z) : nat := (sk_end b n - rd b)%nat.
 
 Lemma gen_Skip_done : forall h g b n res, rel h g b ->
   ((0 <? n) && (0 <? rb_len b)%nat) = false ->
@@ -481,9 +239,11 @@ Lemma gen_Skip_body : forall h g b n res, rel h g b ->
 Proof.
   intros h g b n res R Hn Hres Hov Hc. rel_facts R.
   pose proof (rb_len_le b Hrd Hwr) as Hl.
+  assert (Hn1 : sk_n1 b n = Z.to_nat (Z.min n (Z.of_nat (rb_len b)))) by (unfold sk_n1; go_if; lia).
+  assert (Hend : sk_end b n = Nat.min (blen b) (rd b + sk_n1 b n)) by (unfold sk_end; go_if; lia).
   set (cnt := sk_cnt b n).
-  assert (Hcnt : (1 <= cnt /\ rd b + cnt = sk_end b n /\ sk_end b n <= blen b /\ cnt <= sk_n1 b n)%nat).
-  { subst cnt. unfold sk_cnt, sk_end, sk_n1 in *. repeat (go_if; try lia); lia. }
+  assert (Hcnt : (1 <= cnt /\ rd b + cnt = sk_end b n /\ sk_end b n <= blen b /\ cnt <= sk_n1 b n)%nat)
+    by (subst cnt; unfold sk_cnt; lia).
   set (h2 := sl_put h (Gen.ringBuffer_buf g) (Z.of_nat (rd b)) (repeat 0 cnt)).
   assert (W2 : wf_slice h2 (Gen.ringBuffer_buf g))
     by (apply wf_slice_put; [exact W|lia|rewrite zlen_repeat; lia|exact W]).
@@ -499,18 +259,18 @@ Proof.
   match goal with |- context [bind (Gen.SliceFill ?s ?v) ?kk ?hh] =>
     let Ws := fresh "Ws" in
     assert (Ws : wf_slice hh s)
-      by (unfold wf_slice; cbn [s_arr s_off s_len s_cap]; unfold sk_end, sk_n1, blen in *;
-          repeat split; repeat (go_if; try lia); lia);
+      by (unfold wf_slice; cbn [s_arr s_off s_len s_cap]; unfold blen in *; repeat split; lia);
     go_call (gen_SliceFill_spec hh s v Ws ltac:(cbn [s_len]; lia))
   end;
   go_rebase (Gen.ringBuffer_buf g); cbn [s_len];
   match goal with |- context [sl_put h (Gen.ringBuffer_buf g) ?o (repeat 0 ?m)] =>
-    replace (sl_put h (Gen.ringBuffer_buf g) o (repeat 0 m)) with h2
-      by (unfold h2; subst cnt; unfold sk_cnt, sk_end, sk_n1, blen in *;
-          repeat f_equal; repeat (go_if; try lia); lia)
+    let X := fresh "X" in
+    assert (X : h2 = sl_put h (Gen.ringBuffer_buf g) o (repeat 0 m))
+      by (rel_cbn; unfold h2; subst cnt; unfold sk_cnt, blen in *; repeat f_equal; lia);
+    rewrite <- X
   end;
   go_run; unfold ret; unfold Gen.set_ringBuffer_r; rel_cbn; repeat f_equal;
-  subst cnt; unfold wrap, sk_cnt, sk_end, sk_n1, blen in *; repeat (go_if; try lia); lia.
+  subst cnt; unfold wrap, sk_cnt, blen in *; repeat (go_if; try lia); lia.
 Qed.
 
 Lemma gen_Skip_loop : forall mf h g b n mres b' mres' f,
@@ -533,8 +293,9 @@ Proof.
     change (rb_skip_loop m (mkRb (zero_range (buf b) (rd b) (sk_cnt b n)) (wrap b (sk_end b n)) (wr b))
               (Z.of_nat (sk_n1 b n - sk_cnt b n)) (mres + sk_cnt b n) = (b', mres', false)) in Hm.
     replace (Z.of_nat mres + Z.of_nat (sk_cnt b n)) with (Z.of_nat (mres + sk_cnt b n)) by lia.
-    pose proof (rel_len _ _ _ R) as L.
-    destruct (IH _ g2 _ _ _ b' mres' f R2 ltac:(lia) ltac:(rewrite Eb; nia) Hm ltac:(lia))
+    pose proof (rel_len _ _ _ R) as L. pose proof (sk_n1_le b n) as Hn1. pose proof (rel_small _ _ _ R) as Hsm.
+    pose proof (rb_len_le b (rel_rd _ _ _ R) (rel_wr _ _ _ R)) as Hll.
+    destruct (IH _ g2 _ (Z.of_nat (sk_n1 b n - sk_cnt b n)) (mres + sk_cnt b n)%nat b' mres' f R2 ltac:(lia) ltac:(rewrite Eb; nia) Hm ltac:(lia))
       as (g' & n' & h' & E2 & R' & Hl' & Eb').
     rewrite E2. exists g', n', h'. split; [reflexivity|]. split; [exact R'|]. split.
     + rewrite Hl'. apply sl_put_length. exact W.
@@ -576,21 +337,139 @@ Proof.
   split; [reflexivity|]. split; [reflexivity|]. split; assumption.
 Qed.
 
-(** * NewRingBuffer *)
+(* One API call of the Go ring buffer, as the correspondence harness does it:
+   the operation is mapped to the generated method, the Go results to the
+   observation type [out] shared with the model and the specification.  A
+   panic of the generated code is the observation [OutPanic], fuel exhaustion
+   is [OutOfFuel].  ReadN gets a fresh destination slice of the requested
+   length and reports the elements delivered into it. *)
 
-Theorem gen_New_refines : forall h size, 2 * (Z.of_nat size + 1) < 9223372036854775808 ->
-  exists g,
-    Gen.NewRingBuffer (Z.of_nat size) h = Ok (g, h ++ [repeat 0 (S size)]) /\
-    rel (h ++ [repeat 0 (S size)]) g (new_rb size).
+Definition gen_step (g : Gen.ringBuffer) (o : op) (h : heap) : Gen.ringBuffer * out * heap :=
+  let obs {A} (r : outcome (A * heap)) (k : A -> heap -> Gen.ringBuffer * out * heap) :=
+    match r with
+    | Ok (a, h') => k a h'
+    | GoPanic => (g, OutPanic, h)
+    | NoFuel => (g, OutOfFuel, h)
+    end in
+  match o with
+  | OWrite v => obs (Gen.ringBuffer_Write g v h)
+                    (fun '(g', e) h' => (g', if is_nil e then OutOk else OutExhausted, h'))
+  | ORead => obs (Gen.ringBuffer_Read g h)
+                 (fun '(g', v, e) h' => (g', if is_nil e then OutVal v else OutEOF, h'))
+  | OReadN k => obs (gomake (Z.of_nat k) h)
+                    (fun dst h1 => obs (Gen.ringBuffer_ReadN g dst h1)
+                       (fun '(g', n) h' => (g', OutVals (firstn (Z.to_nat n) (sl_get h' dst)), h')))
+  | OSkip n => obs (Gen.ringBuffer_Skip g n h) (fun '(g', n') h' => (g', OutN (Z.to_nat n'), h'))
+  | OAt i => obs (Gen.ringBuffer_At g i h) (fun v h' => (g, OutVal v, h'))
+  | OClear => obs (Gen.ringBuffer_Clear g h) (fun g' h' => (g', OutOk, h'))
+  | OLen => (g, OutN (Z.to_nat (Gen.ringBuffer_Len g)), h)
+  | OCap => (g, OutN (Z.to_nat (Gen.ringBuffer_Cap g)), h)
+  end.
+
+Fixpoint gen_run (g : Gen.ringBuffer) (ops : list op) (h : heap) : list out * Gen.ringBuffer * heap :=
+  match ops with
+  | [] => ([], g, h)
+  | o :: t => let '(g', x, h') := gen_step g o h in
+              let '(xs, gf, hf) := gen_run g' t h' in (x :: xs, gf, hf)
+  end.
+
+Theorem gen_step_refines : forall h g b q o, rel h g b -> Inv b q -> op_ok o ->
+  exists g' h', gen_step g o h = (g', snd (rb_step b o), h') /\ rel h' g' (fst (rb_step b o)).
 Proof.
-  intros h size Hs. unfold Gen.NewRingBuffer. go_run. unfold ret.
-  replace (Z.to_nat (Z.of_nat size + 1)) with (S size) by lia.
-  eexists. split; [reflexivity|].
-  pose proof (wf_slice_new h (Z.of_nat size + 1) ltac:(lia)) as Wn.
-  replace (Z.to_nat (Z.of_nat size + 1)) with (S size) in Wn by lia.
-  unfold new_rb. rel_split; unfold blen; cbn [buf]; rewrite ?repeat_length; try lia; try reflexivity.
-  - exact Wn.
-  - unfold sl_get. cbn [s_arr s_off s_len]. rewrite arr_get_new.
-    replace (Z.of_nat size + 1) with (zlen (repeat 0 (S size))) by (rewrite zlen_repeat; lia).
-    apply zsub_all.
+  intros h g b q o R HI Hok. destruct o as [v| |k|n|i| | |]; cbn [gen_step rb_step op_ok] in *.
+  - destruct (gen_Write_refines h g b v R) as (g' & h' & E & R' & _). rewrite E.
+    destruct (rb_write b v) as [b1 ok]. cbn [fst snd] in *. exists g', h'. destruct ok; split; try reflexivity; exact R'.
+  - destruct (gen_Read_refines h g b R) as (g' & h' & E & R' & _). rewrite E.
+    destruct (rb_read b) as [b1 [v|]]; cbn [fst snd] in *; exists g', h'; split; try reflexivity; exact R'.
+  - (* ReadN into a fresh slice *)
+    unfold gomake. destruct (Z.ltb_spec (Z.of_nat k) 0) as [?|_]; [lia|].
+    destruct (Z.leb_spec 9223372036854775808 (Z.of_nat k)) as [?|_]; [lia|]. cbn [orb].
+    set (dst := mkSl (length h) 0 (Z.of_nat k) (Z.of_nat k)).
+    set (h1 := h ++ [repeat 0 (Z.to_nat (Z.of_nat k))]).
+    assert (Wd : wf_slice h1 dst) by (apply wf_slice_new; lia).
+    assert (R1 : rel h1 g b) by (apply rel_grow; exact R).
+    assert (Hne : s_arr dst <> s_arr (Gen.ringBuffer_buf g)).
+    { pose proof (rel_wf _ _ _ R) as (Ha & _). subst dst. cbn [s_arr]. lia. }
+    destruct (gen_ReadN_refines h1 g b q dst R1 HI Wd Hne) as (g' & h' & b' & vals & Hm & E & R' & G & Hb & W' & _).
+    rewrite E. subst dst. cbn [s_len] in *. rewrite Nat2Z.id in Hm. rewrite Hm. cbn [fst snd].
+    exists g', h'. split; [|exact R']. rewrite G. unfold zsplice, zlen. cbn [Z.to_nat firstn app Nat.add].
+    rewrite Nat2Z.id, firstn_app, firstn_all, Nat.sub_diag. cbn [firstn]. rewrite app_nil_r. reflexivity.
+  - destruct (gen_Skip_refines h g b q n R HI Hok) as (g' & h' & b' & res & Hm & E & R' & _).
+    rewrite E, Hm. cbn [fst snd]. rewrite Nat2Z.id. exists g', h'. split; [reflexivity|exact R'].
+  - rewrite (gen_At_refines h g b i R Hok). exists g, h.
+    destruct (rb_at b i); cbn [fst snd]; split; try reflexivity; exact R.
+  - destruct (gen_Clear_refines h g b q R HI) as (g' & h' & Hoof & E & R' & _).
+    rewrite E. unfold rb_clear in *. destruct (rb_skip b (Z.of_nat (rb_len b))) as [[b1 r1] oof].
+    cbn [fst snd] in *. subst oof. exists g', h'. split; [reflexivity|exact R'].
+  - rewrite (gen_Len_refines h g b R), Nat2Z.id. exists g, h. split; [reflexivity|exact R].
+  - rewrite (gen_Cap_refines h g b R), Nat2Z.id. exists g, h. split; [reflexivity|exact R].
 Qed.
+
+Lemma gen_run_refines : forall ops h g b q, rel h g b -> Inv b q -> Forall op_ok ops ->
+  exists gf hf, gen_run g ops h = (fst (rb_run b ops), gf, hf) /\ rel hf gf (snd (rb_run b ops)).
+Proof.
+  induction ops as [|o t IH]; intros h g b q R HI Hok.
+  - exists g, h. split; [reflexivity|exact R].
+  - inversion Hok as [|? ? Ho Ht]; subst. cbn [gen_run rb_run].
+    destruct (gen_step_refines h g b q o R HI Ho) as (g' & h' & E & R'). rewrite E.
+    destruct (step_refines b q o HI) as [_ HI'].
+    destruct (rb_step b o) as [b1 x]. cbn [fst snd] in *.
+    destruct (IH h' g' b1 _ R' HI' Ht) as (gf & hf & E2 & Rf). rewrite E2.
+    destruct (rb_run b1 t) as [xs bf]. cbn [fst snd] in *. exists gf, hf. split; [reflexivity|exact Rf].
+Qed.
+
+(** Headline: for every capacity (below 2^61) and every sequence of operations
+    with Go-int arguments, the ring buffer *as translated from the Go source*
+    returns exactly what the bounded FIFO queue returns; in particular the
+    generated code never panics except where the specification says
+    ([At] out of range) and never runs out of fuel. *)
+
+Theorem gen_rb_refines_queue : forall (size : nat) (ops : list op) (h0 : heap),
+  4 * (Z.of_nat size + 1) < 9223372036854775808 -> Forall op_ok ops ->
+  exists g h1, Gen.NewRingBuffer (Z.of_nat size) h0 = Ok (g, h1) /\
+  exists gf hf, gen_run g ops h1 = (fst (q_run (new_q size) ops), gf, hf) /\
+                rel hf gf (snd (rb_run (new_rb size) ops)).
+Proof.
+  intros size ops h0 Hs Hok.
+  destruct (gen_New_refines h0 size Hs) as (g & E & R).
+  exists g, (h0 ++ [repeat 0 (S size)]). split; [exact E|].
+  destruct (gen_run_refines ops _ g _ _ R (inv_init size) Hok) as (gf & hf & E2 & Rf).
+  rewrite (rb_refines_queue size ops) in E2. exists gf, hf. split; assumption.
+Qed.
+
+Print Assumptions gen_rb_refines_queue.
+
+(* consumed slots hold the zero value in the heap of the generated code *)
+
+Corollary gen_rb_zero_outside_window : forall (size : nat) (ops : list op) (h0 : heap),
+  4 * (Z.of_nat size + 1) < 9223372036854775808 -> Forall op_ok ops ->
+  exists g h1 gf hf outs, Gen.NewRingBuffer (Z.of_nat size) h0 = Ok (g, h1) /\
+    gen_run g ops h1 = (outs, gf, hf) /\
+    let b := snd (rb_run (new_rb size) ops) in
+    sl_get hf (Gen.ringBuffer_buf gf) = buf b /\ zero_outside b.
+Proof.
+  intros size ops h0 Hs Hok.
+  destruct (gen_rb_refines_queue size ops h0 Hs Hok) as (g & h1 & E & gf & hf & E2 & Rf).
+  exists g, h1, gf, hf, (fst (q_run (new_q size) ops)). split; [exact E|]. split; [exact E2|]. split.
+  - exact (rel_buf _ _ _ Rf).
+  - apply rb_zero_outside_window.
+Qed.
+
+(** non-vacuity: the generated code runs the wrap-around example of
+    Properties/C14.v (capacity 2, all eight operations) *)
+
+Example gen_ex_wraparound :
+  match Gen.NewRingBuffer 2 [] with
+  | Ok (g, h1) =>
+      let '(outs, gf, hf) := gen_run g
+        [OWrite 11; OWrite 12; OWrite 13; OLen; ORead; OWrite 13; OAt 1; OAt 2; OAt (-1);
+         OReadN 1; OWrite 14; OCap; OReadN 5; ORead; OWrite 15; OWrite 16; OSkip 1;
+         OWrite 17; OLen; OSkip 7; OSkip (-3); OWrite 18; OWrite 19; OClear; OLen; OWrite 20] h1 in
+      outs = [OutOk; OutOk; OutExhausted; OutN 2; OutVal 11; OutOk; OutVal 13; OutPanic; OutPanic;
+              OutVals [12]; OutOk; OutN 2; OutVals [13; 14]; OutEOF; OutOk; OutOk; OutN 1;
+              OutOk; OutN 2; OutN 2; OutN 0; OutOk; OutOk; OutOk; OutN 0; OutOk] /\
+      sl_get hf (Gen.ringBuffer_buf gf) = [20; 0; 0] /\
+      Gen.ringBuffer_r gf = 0 /\ Gen.ringBuffer_w gf = 1
+  | _ => False
+  end.
+Proof. vm_compute. repeat split; reflexivity. Qed.
